@@ -633,6 +633,34 @@ def _d10(chk, fb, files):
                 chk.refuted("D10", f.key, con, f.loc(w),
                             "inside the loop over the components '%s' overwrites the class probability instead of adding to it: when two components carry the same class value only the last contribution survives and the probabilities sum to less than one" % render(w)[:90],
                             witness={"input": "a mixture of two identical component distributions with weights 0.5 / 0.5: every class value is shared"})
+        # the same store spelled as a map insertion: emplace / insert / try_emplace keep an entry that is already there,
+        # insert_or_assign replaces it - neither adds the new contribution to the old one
+        for c in f.all_nodes():
+            if not (is_call(c) and c["callee"]["name"] in ("emplace", "insert", "try_emplace", "insert_or_assign", "emplace_hint") and "obj" in c
+                    and render(f.obj(c)).replace("this.", "") == "distribution_"):
+                continue
+            inner = f.enclosing(c, ("ForStmt", "WhileStmt", "CXXForRangeStmt"))
+            outer = f.enclosing(inner, ("ForStmt", "WhileStmt", "CXXForRangeStmt")) if inner is not None else None
+            if outer is None or not any(c_ in render(outer) for c_ in comp):
+                continue
+            args = f.args(c)
+            if not args or all(strip(a)["k"] in ("IntegerLiteral", "FloatingLiteral") for a in args[1:]) and len(args) > 1:
+                continue        # a zero-filling pass
+            if not any(x["k"] == "BinaryOperator" and x["op"] == "*" for a in args for x in walk(a)):
+                continue        # not a weighted term
+            n += 1
+            par = f.parent.get(c["id"])
+            while par is not None and par["k"] in ("ExprWithCleanups", "ImplicitCastExpr", "MaterializeTemporaryExpr", "CXXBindTemporaryExpr", "ParenExpr"):
+                par = f.parent.get(par["id"])
+            if par is None or par["k"] not in ("CompoundStmt", "ForStmt", "WhileStmt", "CXXForRangeStmt", "IfStmt", "DoStmt"):
+                chk.unknown("D10", f.key, "contributions-accumulate", f.loc(c), "the result of the insertion is used (an add-if-present may follow): not decided")
+                continue
+            keeps = c["callee"]["name"] != "insert_or_assign"
+            chk.refuted("D10", f.key, "contributions-accumulate", f.loc(c),
+                        "inside the loop over the components '%s' %s: when two components carry the same class value %s and the probabilities sum to less than one"
+                        % (render(c)[:90], "inserts the weighted term only if the class value is new" if keeps else "replaces the entry of the class value",
+                           "the later contribution is dropped" if keeps else "only the last contribution survives"),
+                        witness={"input": "a mixture of two identical component distributions with weights 0.5 / 0.5: every class value is shared"})
     chk.floor("D10", "weighted contributions written by compound rebuilds", n, 1)
 
 
